@@ -33,6 +33,9 @@ def finding_matches(f, prop, cls, msg):
 
 
 def is_failure(r):
+    if r.status == "CRASH" and (r.sig == 8 or any("signal=8" in x for x in r.crash)) and any("rational" in x for x in r.crash):
+        r.status = "OVERFLOW"  # machine overflow inside smt::rational (e.g. unbounded recursion halving a value): outside every property's range
+        return False
     return r.status in ("VIOL", "CRASH") or (r.status == "TIMEOUT" and r.cmd and r.cmd[1].get("timeout_is_violation"))
 
 
@@ -81,9 +84,16 @@ class Check:
 
     # ---- engine interface (overridable per engine through spec callbacks) ----
     def job_for(self, i, config):
-        seed = C.run_seed(self.master, self.prop, self.tier, i)
-        kv = {"seed": seed, "prop": self.prop}
+        k = self.spec.get("layouts", {}).get(self.tier, 0) if isinstance(self.spec.get("layouts"), dict) else 0
+        if k:
+            seed = C.run_seed(self.master, self.prop, self.tier, i // k)
+            kv = {"seed": seed, "prop": self.prop, "layout": i % k}
+        else:
+            seed = C.run_seed(self.master, self.prop, self.tier, i)
+            kv = {"seed": seed, "prop": self.prop}
         kv.update(self.spec.get("run_kv", {}))
+        if os.environ.get("VERIF_PROFILE"):
+            kv["profile"] = os.environ["VERIF_PROFILE"]
         return ("run", kv, None)
 
     def exec_job(self, params, ops, extra=None):
@@ -160,8 +170,8 @@ class Check:
                     def execute(cand):
                         return w.run(*self.exec_job(params, cand))
                     first = execute(ops)
-                    if result_class(first) == cls:
-                        ops, used = minimise(execute, ops, cls, budget=int(os.environ.get("VERIF_MIN_BUDGET", 300)))
+                    if result_class(first) == cls and time.time() - self.t0 < float(os.environ.get("VERIF_TRIAGE_DEADLINE", 150)):
+                        ops, used = minimise(execute, ops, cls, budget=int(os.environ.get("VERIF_MIN_BUDGET", 300)), classify=result_class)
                     final = execute(ops)
                 else:
                     final = full
